@@ -95,6 +95,24 @@ def gen_case(rng, pid, tier):
     ops = []
     n = rng.randint(25, 60)
 
+    nfresh = [0]
+
+    def gc_op(gk):
+        """A collection, 35% of the time with a brand-new owner appearing and taking an entry while the
+        collector is between two of its filesystem calls (`k` calls made so far)."""
+        if rng.random() >= 0.35:
+            return [gk]
+        nfresh[0] += 1
+        newo = _owner(100 + nfresh[0])
+        if gk == 'rgc':
+            item = rng.choice(rules) if rng.random() < 0.5 else _mkrule(rng, allips[:3])
+        elif gk == 'vgc':
+            item = rng.choice(allips)
+        else:
+            item = [_app_of(newo), rng.choice(['tcp', 'udp']), rng.choice(['http', 'ssh']),
+                    rng.choice([5000, 5001]), rng.choice([1, 77]), rng.choice([80, 22])]
+        return ['gci', gk, rng.choice([0, 1, 1, 1, 2, 3]), newo, item]
+
     def touch_op():
         return ['touch', rng.choice([['v', rng.choice(nearby)], ['v', rng.choice(nearby)],
                                      ['j', rng.choice(['README', '10.0.0', 'x.y'])],
@@ -134,7 +152,7 @@ def gen_case(rng, pid, tier):
         elif r < 0.34:
             ops.append(['vfree', o, rng.choice(allips[:7] if not malformed else nearby)])
         elif r < 0.40:
-            ops.append(['vgc'])
+            ops.append(gc_op('vgc'))
         elif r < 0.42:
             ops.append(['vinit'] if rng.random() < 0.4 else ['vlist'])
         elif r < 0.52:
@@ -143,7 +161,7 @@ def gen_case(rng, pid, tier):
         elif r < 0.60:
             ops.append(['runlink', rng.choice(rules), o])
         elif r < 0.64:
-            ops.append(['rgc'])
+            ops.append(gc_op('rgc'))
         elif r < 0.73:
             sp = rng.choice(specs)
             # mostly the natural owner of the app, sometimes another one
@@ -159,7 +177,7 @@ def gen_case(rng, pid, tier):
             ops.append(['eunlinkall', sp[0], rng.choice([None, None, sp[1]]), rng.choice([None, None, sp[2]]),
                         None if (malformed and rng.random() < 0.2) else o])
         elif r < 0.87:
-            ops.append(['egc'])
+            ops.append(gc_op('egc'))
         elif r < 0.94:
             who = o if o in live or rng.random() < 0.1 else rng.choice(sorted(live) or [o])
             env = envof.get(who, 'dev') if rng.random() < 0.9 else rng.choice(ENVS)
@@ -490,7 +508,7 @@ def _run(case, root):
                     i = intern(x)
                     if '#' in x:
                         inst_ids.add(i)
-                elif isinstance(x, list) and op[0] in ('ecreate', 'eunlink'):
+                elif isinstance(x, list) and (op[0] in ('ecreate', 'eunlink') or (op[0] == 'gci' and op[1] == 'egc')):
                     for y in x[:3]:
                         i = intern(y)
                         if '#' in str(y):
@@ -510,6 +528,7 @@ def _run(case, root):
             line = None
             exc = None
             glob_seen = []
+            post_belief = None
             who = None           # the owner making the call (if any)
             try:
                 if kind == 'spawn':
@@ -585,6 +604,87 @@ def _run(case, root):
                 elif kind == 'rgc':
                     line, site = 'rgc', 'RuleMgr.garbage_collect'
                     rules.garbage_collect()
+                elif kind == 'gci':
+                    _, gk, kcall, newo, item = op
+                    tbl = {'vgc': 'vip', 'rgc': 'rule', 'egc': 'ep'}[gk]
+                    site = {'vgc': 'VipMgr.garbage_collect', 'rgc': 'RuleMgr.garbage_collect',
+                            'egc': 'endpoints.garbage_collect'}[gk] + '+interleaved'
+                    if gk == 'rgc':
+                        iname = rule_fname(item)
+                        cline = 'rcreate %d %d' % (rid(item), intern(newo))
+                    elif gk == 'vgc':
+                        iname = item
+                        cline = 'valloc %d %d' % (intern(newo), ip_int(item))
+                    else:
+                        iname = _SEP.join(str(x) for x in item)
+                        cline = 'ecreate %s %d' % (spec_str(item), intern(newo))
+                    ipath = os.path.join(dirs[tbl], iname)
+                    fresh = (newo not in live_before and iname not in before[tbl] and
+                             not any(t == newo for ents in before.values() for t in ents.values()))
+                    ist = {'n': 0, 'busy': False, 'done': False, 'at': None, 'res': None}
+
+                    def nested():
+                        if not fresh or os.path.lexists(ipath):
+                            return
+                        ist['at'] = ist['n']
+                        with open(os.path.join(owners_dir, newo), 'a'):
+                            pass
+                        try:
+                            if gk == 'rgc':
+                                rules.create_rule(item[0], rule_obj(item), newo)
+                            elif gk == 'vgc':
+                                vips.alloc(newo, item)
+                            else:
+                                eps.create_spec(appname=item[0], proto=item[1], endpoint=item[2], real_port=item[3],
+                                                pid=item[4], port=item[5], owner=os.path.join(owners_dir, newo))
+                            ist['res'] = 'ok' if gk != 'vgc' else 'ip:%d' % ip_int(item)
+                        except (OSError, ValueError, KeyError, AssertionError, Exception) as e2:  # pylint: disable=broad-except
+                            ist['res'] = _exc_kind(e2)
+                            if ist['res'].startswith('Other'):
+                                raise
+
+                    origs = {n_: getattr(os, n_) for n_ in ('listdir', 'stat', 'lstat', 'readlink', 'unlink')}
+
+                    def mk(n_):
+                        def wrapped(*a, **kw):
+                            if not ist['busy']:
+                                if not ist['done'] and ist['n'] == kcall:
+                                    ist['busy'] = True
+                                    try:
+                                        nested()
+                                    finally:
+                                        ist['busy'] = False
+                                        ist['done'] = True
+                                ist['n'] += 1
+                            return origs[n_](*a, **kw)
+                        return wrapped
+                    with mock.patch.multiple(os, **{n_: mk(n_) for n_ in origs}):
+                        if gk == 'rgc':
+                            rules.garbage_collect()
+                        elif gk == 'vgc':
+                            vips.garbage_collect()
+                        else:
+                            endpoints.garbage_collect(dirs['ep'])
+                    if not ist['done']:
+                        ist['n'] = 10 ** 6
+                        nested()
+                    stats['gci'] = stats.get('gci', 0) + 1
+                    if ist['at'] is None:
+                        line = gk                        # nothing injected: a plain collection
+                    elif ist['at'] == 0:
+                        # before the collector's first filesystem call: equivalent to  spawn; create; gc
+                        run.op('quiet spawn %d' % intern(newo), 'q')
+                        run.op('quiet ' + cline, 'q')
+                        line = gk
+                        run.tags.add('gci-before')
+                    else:
+                        # after the collector listed the directory: equivalent to  gc; spawn; create
+                        run.op('quiet ' + gk, 'q')
+                        run.op('quiet spawn %d' % intern(newo), 'q')
+                        line, res = cline, ist['res']
+                        run.tags.add('gci-after')
+                    if ist['at'] is not None and ist['res'] in ('ok', 'ip:%d' % ip_int(item) if gk == 'vgc' else 'ok'):
+                        post_belief = (newo, (tbl, iname))
                 elif kind == 'ecreate':
                     sp, who = op[1], op[2]
                     line = 'ecreate %s %s' % (spec_str(sp), 'none' if who is None else intern(who))
@@ -705,6 +805,8 @@ def _run(case, root):
             # a (re)appearing owner file is a new incarnation
             for o in live - live_before:
                 beliefs[o] = set()
+            if post_belief is not None:
+                beliefs.setdefault(post_belief[0], set()).add(post_belief[1])
             # failed unlink_all: the owner stops believing in what it saw disappear
             if kind == 'eunlinkall' and exc is not None and op[4] is not None:
                 beliefs[op[4]] = {k for k in beliefs.get(op[4], ()) if not (k[0] == 'ep' and k[1] not in after['ep'])}
@@ -734,6 +836,13 @@ def _run(case, root):
                             stats['contended_release'] += 1
             if kind in ('vgc', 'rgc', 'egc'):
                 check_gc(site, {'vgc': 'vip', 'rgc': 'rule', 'egc': 'ep'}[kind], before, after, live_before)
+            if kind == 'gci' and exc is None:
+                # exactness for everything but the entry the newcomer took while the collector ran
+                tbl_ = {'vgc': 'vip', 'rgc': 'rule', 'egc': 'ep'}[op[1]]
+                adj = {t: dict(e) for t, e in after.items()}
+                if post_belief is not None and adj[tbl_].get(post_belief[1][1]) == op[3]:
+                    del adj[tbl_][post_belief[1][1]]
+                check_gc(site, tbl_, before, adj, live_before)
             if res == 'OSError:17':
                 stats['eexist'] += 1
             if res == 'Exception' and kind == 'valloc':
